@@ -315,6 +315,24 @@ class StmtExec(Exec):
             mk = lambda v: ast.copy_location(ast.Assign(targets=s.targets, value=v, lineno=s.lineno), s)
             node = ast.copy_location(ast.If(test=s.value.test, body=[mk(s.value.body)], orelse=[mk(s.value.orelse)]), s)
             return self.st_If(node, st)
+        cursors = getattr(self.ctx.contract, "cursors", None) or {}
+        if len(s.targets) == 1 and isinstance(s.targets[0], ast.Name) and s.targets[0].id in cursors:
+            name = s.targets[0].id
+            cfg = cursors[name]
+            if isinstance(s.value, ast.Name) and s.value.id == cfg["root"]:
+                root = st.env[cfg["root"]]
+                st.env[name] = Cursor(cfg["root"], coerce(PyTup([], True), SeqT(root.ty.key)))
+                return [Outcome("normal", st)]
+            if isinstance(s.value, ast.Subscript) and isinstance(s.value.value, ast.Name) and s.value.value.id == name \
+                    and isinstance(st.env.get(name), Cursor):
+                cur = st.env[name]
+                root = st.env[cur.root]
+                k = coerce(self.ev(s.value.slice, st), root.ty.key)
+                sub = self.deref(cur, st)
+                self.ctx.oblige("safety", st, contains(k, sub), s.lineno, "cursor step: key present")
+                st.env[name] = Cursor(cur.root, concat(cur.path, PyTup([k], True)))
+                return [Outcome("normal", st)]
+            raise Unsupported("cursor %s assigned from an unexpected expression (line %d)" % (name, s.lineno))
         v = self.ev(s.value, st)
         for t in s.targets:
             self._store_value_node = s.value
@@ -445,11 +463,19 @@ class StmtExec(Exec):
             raise Unsupported("loop %s at line %d (`%s`) has no invariant in the sidecar" % (k, s.lineno, src))
         return k, spec
 
+    def cursor_roots(self, names, st):
+        return {st.env[n].root for n in names if isinstance(st.env.get(n), Cursor)} | \
+               {c["root"] for n, c in (getattr(self.ctx.contract, "cursors", None) or {}).items() if n in names}
+
     def havoc(self, body, st, k, spec):
         roots = assigned_roots(body)
+        roots = roots | self.cursor_roots(roots, st)
         for name in sorted(roots):
             cur = st.env.get(name)
             decl = (self.ctx.contract.locals or {}).get(name)
+            if isinstance(cur, Cursor):
+                st.env[name] = Cursor(cur.root, fresh(cur.path.ty, name + "_path"))
+                continue
             if isinstance(cur, V):
                 if cur.ty is NONE and decl is None:
                     raise Unsupported("loop-modified variable %s is None at loop entry and has no declared type" % name)
@@ -519,7 +545,8 @@ class StmtExec(Exec):
             st.env[g_rest] = st.env[g_it]
             st.env[g_i] = V(INT, z3.IntVal(0))
             st.env["_rest"], st.env["_i"], st.env["_it"] = st.env[g_rest], st.env[g_i], st.env[g_it]
-        for name in assigned_roots(s.body):
+        _ar = assigned_roots(s.body)
+        for name in _ar | self.cursor_roots(_ar, st):
             if name in st.env:
                 st.env["entry:" + name] = st.env[name]
         self.check_inv("inv_entry", spec, st, s.lineno, k)
